@@ -76,10 +76,18 @@ func VerifC06ListWatch() {
 	zzverif.WaitIdle()
 	evs, closed := vDrainEvents(ch)
 	zzverif.Assert(!closed, "watch stays open")
+	// any later revision R' (R <= R' <= latest): the events up to R' applied to the range result at
+	// R give the range result served at R' (asked with an explicit revision, or 0 for the latest)
+	rp := zzverif.U64("Rprime")
+	zzverif.Assume(zzverif.And(rp >= r, rp <= w.dealt))
 	last := r
 	for _, e := range evs {
 		zzverif.Assert(e.Revision > last, "events arrive in strictly increasing revision order, all after R")
 		last = e.Revision
+		if e.Revision > rp {
+			zzverif.Cover("intermediate-revision")
+			continue
+		}
 		i := vNameIndex(e.Kv.Key)
 		switch e.Type {
 		case proto.Event_DELETE:
@@ -92,9 +100,17 @@ func VerifC06ListWatch() {
 			zzverif.Cover("put-applied")
 		}
 	}
-	l2, err := w.b.List(vCtx(), &proto.RangeRequest{Key: rg[0], End: rg[1]})
-	zzverif.Assert(err == nil, "second list: no error")
-	zzverif.Assert(l2.Header.Revision == w.dealt, "second list at the latest revision")
+	ask := rp
+	if rp == w.dealt && zzverif.Choose("askLatest", 2) == 1 {
+		ask = 0
+	}
+	l2, err := w.b.List(vCtx(), &proto.RangeRequest{Key: rg[0], End: rg[1], Revision: ask})
+	if err != nil {
+		zzverif.Assert(ask != 0 && ask < w.floor, "the later list is refused only below the compaction floor")
+		zzverif.Cover("later-list-compacted")
+		return
+	}
+	zzverif.Assert(l2.Header.Revision == w.dealt, "list header carries the committed revision")
 	cnt := 0
 	for _, s := range snap {
 		if s.present {
@@ -109,7 +125,7 @@ func VerifC06ListWatch() {
 		zzverif.Assert(s.rev == kv.Revision, "reconstructed modification revision")
 	}
 	// and the later range read is what the reference model says
-	w.checkList(rg[0], rg[1], 0, 0)
+	w.checkList(rg[0], rg[1], ask, 0)
 	zzverif.Cover("done")
 }
 
